@@ -18,7 +18,9 @@ CHECKS = {
              'never produces NaN, with six skeleton deviations reported; for random instances (sizes 0-6 not divisible '
              'by the batch size, 1-3 rounds, SGD/momentum on client and server) TLC computes the exact rational result '
              'and the real algorithm must reproduce it bit-exactly (dyadic) or to 1e-5 under several listing orders and '
-             'all three backends.',
+             'all three backends; with a key-using (integer-noise) loss the key of every local step is recorded on the debug '
+             'backend (descendant of the client\'s own key, pairwise distinct) and TLC\'s exact parameters for those draws '
+             'must be reached by all three backends.',
         note='Exact island: quadratic per-example loss, integer data, dyadic rates; Adam/Adagrad/Yogi/RMSProp only '
              'relationally; zero-example clients with num_epochs=None excluded (no batch stream exists).',
         design='5/C01'),
@@ -32,7 +34,8 @@ CHECKS = {
              'liveness of caller buffers for every batch-count profile and device count in the bounds, and thread '
              'isolation / restore-on-exit for every interleaving of two thread programs; each profile is executed on '
              'the real backends with a JAX realisation of the free program whose state carries the consumed tokens and '
-             'is poisoned by a padding batch; each schedule is executed on real threads.',
+             'is poisoned by a padding batch (some profiles call the same for_each_client function three times with the '
+             'shared input updated in between); each schedule is executed on real threads.',
         note='Forced host CPU devices stand in for accelerators; buffer donation of the jit backend is a design-level '
              'statement on this platform (caller arrays are inspected after every call).',
         design='5/C02'),
@@ -65,7 +68,8 @@ CHECKS = {
              'mask-after-reduce, unsanitised-merge and skip-leading-padding deviations reported; sampled (quick) / all '
              'bounded (thorough) layouts are executed for every discrete metric class through four entry points with '
              'valid or NaN garbage in padded rows and compared with the TLC rational; all merge groupings of real '
-             'statistics (with and without zero) must agree with evaluate_model.',
+             'statistics (with and without zero) must agree with evaluate_model; all configurations of a metric class '
+             'are evaluated on one batch through the jitted path in one process, each against its own statistics.',
         note='Cross-entropy metrics only relationally (tolerance classes); banks of <= 4 examples, <= 3 batches of <= 3 rows.',
         design='5/C05'),
     'C06': dict(
@@ -78,7 +82,7 @@ CHECKS = {
              'full-batch gradient and per-domain sums equal their batch-free definitions with the regulariser once '
              '(three deviations reported); the layouts are executed on seven real entry points and compared with the '
              'TLC rationals; agnostic FedAvg domain weights (with and without regulariser), HypCluster assignment and '
-             'Mime/MimeLite rounds must not depend on padded batch size / buckets.',
+             'Mime/MimeLite rounds must not depend on padded batch size / buckets, also for cohorts in which a domain has no example.',
         note='Exact island: scalar parameter, quadratic loss, L2 regulariser with dyadic weight.',
         design='5/C06'),
     'C07': dict(
@@ -89,7 +93,8 @@ CHECKS = {
              'non-aliasing and the one-pass discipline of the fold for all small inputs and orders, and norm/direction/'
              'identity of clipping on Pythagorean vectors; every emitted case is executed on the real functions with '
              'NumPy and JAX leaves and list/generator/map inputs, comparing the value with the TLC rational and '
-             'inspecting every caller array (deleted? changed? aliased?).',
+             'inspecting every caller array (deleted? changed? aliased?); random trees include clients with different leaf '
+             'dtypes in every order.',
         note='float32 rounding tolerated when the denominator is not a power of two; aliasing observable for JAX '
              'arrays only.',
         design='5/C07'),
@@ -102,7 +107,7 @@ CHECKS = {
              'slices never enlarge and parents never change; all histories up to depth 2 (quick) / 3 (thorough) on 4 '
              'corner-case ids are executed on the four real implementations and compared view by view, and random '
              'histories of depth <= 5 on 7 ids (trailing zero bytes, prefixes, extreme bytes; bounds realised by '
-             'member and non-member strings) are accepted by the specification.',
+             'member and non-member strings) are accepted by the specification; bulk gets name some ids twice.',
         note='Iteration order compared only for determinism; size-preserving client preprocessors; shuffled_clients '
              'not called on empty views.',
         design='5/C08'),
@@ -116,7 +121,8 @@ CHECKS = {
              'prefixes), from every directory state reachable by up to 2 (quick) / 3 (thorough) successive crashes, is '
              'accepted by the specification with all invariants evaluated after every file-system effect; conversely every '
              'crash schedule TLC generates for small configurations (named control states, up to 2 crashes) is driven '
-             'into the real code and the directory after each crash and the final result are compared.',
+             'into the real code and the directory after each crash and the final result are compared; half of the '
+             'configurations use full participation, where only the ORDER of the cohort identifies the round.',
         note='In-process crash simulation (BaseException at effect boundaries; written data assumed on disk); '
              'TensorBoard summaries stubbed; harness-supplied deterministic algorithm/eval fns; TLC, JVM.',
         design='5/C09'),
@@ -128,7 +134,9 @@ CHECKS = {
         text='TLC enumerates all history trees of depth <= 3 (quick) / 4 (thorough) over 3 cohorts (repeated '
              'participation included); for every algorithm the real execution of each history must satisfy Functional '
              '(same state value and cohort give the same new state and diagnostics, also from a pickled or '
-             'checkpointed copy) and Immutable (no existing state changes fingerprint or loses a buffer).',
+             'checkpointed copy, and on a second algorithm object that continues from the restored state) and Immutable (no '
+             'existing state changes fingerprint or loses a buffer); FedAvg also runs on haiku-shaped nested parameters with '
+             'a freezing server optimizer.',
         note='Bit-identical comparison on the CPU backend; fingerprints include nested container key sets and deleted '
              'buffers; rank >= 1 leaves for the rotation-based aggregators.',
         design='5/C10'),
@@ -153,13 +161,15 @@ CHECKS = {
         text='TLC proves that the proximal variant equals FedAvg on the loss augmented with the penalty toward the round\'s '
              'parameters (penalty toward the initial parameters reported); for random instances with SGD or momentum on '
              'clients and server, repeated participation and 1-3 rounds TLC computes the exact expected parameters and '
-             'each real algorithm with its degenerate hyper-parameters must reproduce them round after round.',
+             'each real algorithm with its degenerate hyper-parameters must reproduce them round after round; cohorts may '
+             'list a client twice; with a key-using loss FedProx must reach TLC\'s exact FedAvg values for the keys FedAvg '
+             'draws with.',
         note='Exact island as in C01; MimeLite/Mime with plain SGD base as the property states; Mime instances give every '
              'client with examples exactly one local step.',
         design='5/C12'),
     'C13': dict(
         technique='TLA+ spec Sampler.tla (sample / set_round_num / fresh sampler / streaming restart) model-checked by '
-                  'TLC; every enumerated history replayed on real samplers (in-memory and SQLite data, several '
+                  'TLC; every enumerated history replayed on real samplers (in-memory, SQLite and derived subset / slice views, several '
                   'processes with different hash seeds) and the executions validated by TLC (SamplerTrace.tla)',
         text='TLC enumerates every history of length <= 4 (quick) / 5 (thorough) and proves purity in the round on the '
              'design (with hidden-generator and off-by-one-restart deviations reported); each history plus longer '
@@ -187,7 +197,8 @@ CHECKS = {
         text='TLC proves concat-preservation, all-but-last-full, bucket padding and mismatch rejection of the buffer '
              'machine for all size sequences in the bounds, exactly-once emission of buffered shuffling for all '
              'permutations/swap indices, and pass equality of the repeatable iterator; each is bound to the code by '
-             'exhaustive replay of the emitted cases and by TLC validation of recorded real runs over larger ranges.',
+             'exhaustive replay of the emitted cases and by TLC validation of recorded real runs over larger ranges and over '
+             'twelve kinds of base iterables (containers, iterators, iterables whose every iter() differs).',
         note='A trailing batch with no real row is accepted either way; non-trivial order only for streams >= 10; '
              'empty federated datasets are C08 territory.',
         design='5/C15'),
@@ -210,11 +221,12 @@ CHECKS = {
                   'hyp_cluster validated round by round by TLC (AlgHistoryTrace.tla); MimeLite clipping and '
                   'ignore_grads_haiku as PureHistory facts',
         text='TLC proves the window, key-set and cluster-update invariants for all cohorts / counts / assignments of small '
-             'instances (three deviations reported); 4-8 round real histories - including rounds where a domain or a '
+             'instances (four deviations reported); 4-8 round real histories - including rounds where a domain or a '
              'cluster receives no example - must be behaviours of the specification with the real window, client table, '
              'assignment and changed clusters bound in every round, domain weights on the simplex, coefficients in '
              '[0,1], assignment of minimal loss (independent float64 loss); MimeLite aggregate and per-client norms within '
-             'the bound; frozen leaves bit-identical and trainable leaves equal to the base optimizer.',
+             'the bound; frozen leaves bit-identical and trainable leaves equal to the base optimizer for four ignored sets; '
+             'APFL\'s evaluation function runs between rounds on never-trained clients and must leave the table unchanged.',
         note='Numeric flags (simplex, unit interval, argmin with 1e-4 tie tolerance, norms) are evaluated by the driver and '
              'judged by TLC.',
         design='5/C17'),
